@@ -34,10 +34,15 @@ ScanAddrsThorough == ScanAddrsQuick \cup {<<0, 0, 0, 0, 0>>, <<0, 10, 0, 0, 0>>,
 Eff(a) == IF a = <<>> THEN <<231, 231, 231, 231, 231>> ELSE a
 Rs(a, S) == {[chan |-> x[1], rate |-> x[2], addr |-> a] : x \in S}
 Small(S, n) == {T \in SUBSET S : Cardinality(T) <= n}
-\* Crazyflies in range: up to two on the scanned address, optionally one stray on another address
+\* Crazyflies in range: up to two on the scanned address, optionally one stray on another address of the
+\* fleet: an unrelated one, or the neighbours of the scanned address that a mix-up of byte order / padding
+\* would reach (bytes mirrored, bytes rotated by one)
+Mirror(a) == [i \in 1..5 |-> a[6 - i]]
+Rot(a) == [i \in 1..5 |-> a[(i % 5) + 1]]
+Strays(a) == {{}, {[chan |-> 80, rate |-> 2, addr |-> <<1, 1, 1, 1, 1>>]}}
+             \cup {{[chan |-> 40, rate |-> 1, addr |-> b]} : b \in {Mirror(Eff(a)), Rot(Eff(a))} \ {Eff(a)}}
 RespFor(addrs, chans, n) ==
-    UNION {{Rs(Eff(a), S) \cup stray : S \in Small(chans \X {0, 1, 2}, n),
-                                        stray \in {{}, {[chan |-> 80, rate |-> 2, addr |-> <<1, 1, 1, 1, 1>>]}}} : a \in addrs}
+    UNION {{Rs(Eff(a), S) \cup stray : S \in Small(chans \X {0, 1, 2}, n), stray \in Strays(a)} : a \in addrs}
 RespQuick == RespFor(ScanAddrsQuick, {0, 80, 125}, 1)
 RespThorough == RespFor(ScanAddrsThorough, {0, 80, 125}, 2)
 \* small constants for the Bug_* configurations (each must be refuted quickly)
